@@ -86,13 +86,24 @@ def _gen_valid_i(rng, threads=False):
                 tref = ("type", base + t["id"])
             if rng.random() < 0.4:
                 pref = ("party", base + rng.choice(imp["schema"]["parties"])["id"])     # ... acted on by an imported party
-            native["promises"].append({"id": pid, "name": 300 + pid, "type": tref, "ctx": None})
+            xp = next((q for q in imp["schema"]["promises"] if q["id"] == x["promise"][1]), None)
+            edits_imported = (rng.random() < 0.3 and xp is not None and xp["ctx"] is None and ib.creator.get(xp["id"]) == x["id"]
+                              and not any(y["promise"] == x["promise"] and y is not x for y in imp["schema"]["actions"]))
+            if edits_imported:
+                # the native action EDITS the imported promise that x creates (x is its ancestor through the checkpoint);
+                # native and imported promise ids overlap
+                t = next(tt for tt in imp["schema"]["otypes"] if tt["id"] == xp["type"][1])
+                prom_ref = ("promise", base + xp["id"])
+            else:
+                native["promises"].append({"id": pid, "name": 300 + pid, "type": tref, "ctx": None})
+                prom_ref = ("promise", pid)
             native["checkpoints"].append({"id": cid, "alias": 500 + cid, "gate": None, "deps": [cmp_], "ctx": None})
-            native["actions"].append({"id": aid, "name": 400 + aid, "party": pref, "promise": ("promise", pid),
+            native["actions"].append({"id": aid, "name": 400 + aid, "party": pref, "promise": prom_ref,
                                       "ctx": None, "dep": ("checkpoint", cid),
                                       "op": {"incl": ("include", [t["attrs"][0]["name"]]), "defaults": [], "edges": [], "appends": None}, "milestones": []})
             nb.anc[aid] = set()
-            nb.creator[pid] = aid
+            if not edits_imported:
+                nb.creator[pid] = aid
             tainted.add(aid)
             imp.setdefault("dependents", []).append((aid, x["id"]))
     # connections: each adds a fresh native checkpoint on an untainted native action
@@ -295,7 +306,7 @@ def cycle_through_connection(rng, case):
     cid = max(c["id"] for c in native["checkpoints"]) + 1
     ptype = {p["id"]: p["type"][1] for p in native["promises"]}
     act = next(y for y in native["actions"] if y["id"] == a)
-    if ptype.get(act["promise"][1], 0) < OFF:
+    if ptype.get(act["promise"][1], OFF) < OFF:
         cmp_ = nb.make_cmp(a)[0]
     else:       # a native promise of an imported object type: the native builder has no path table for it
         cmp_ = ("cmp", ("act", ("action", a), []), rng.choice(["EQUALS", "DOES_NOT_EQUAL"]), ("lit", "SNull", nb.fresh()))
@@ -369,6 +380,69 @@ def add_dependency_names_a_generated_id(rng, case):
 
 
 @imut
+def native_checkpoint_compares_imported_threaded_action(rng, case):
+    """A native checkpoint -- unbound, or bound to a native thread group that is given the SAME id as the imported
+    action's thread group -- compares an action that is threaded inside an imported schema: out of scope in either
+    case (thread groups of different schemas are different thread groups, whatever their ids)."""
+    native, nb = case["native"], case["builder"]
+    cands = [(imp, a) for imp in case["imports"] for a in imp["schema"]["actions"] if a["ctx"] is not None and a["op"]["appends"] is None]
+    if not cands:
+        return None
+    imp, x = rng.choice(cands)
+    ib, base = imp["builder"], imp["base"]
+    for _ in range(20):
+        cmp_, _two = ib.make_cmp(x["id"])
+        if cmp_[1][0] == "act" and cmp_[3][0] == "lit" and cmp_[1][2]:
+            break
+    else:
+        return None
+    cmp_ = ("cmp", ("act", ("action", base + x["id"]), cmp_[1][2]), rng.choice(["CONTAINS", "DOES_NOT_CONTAIN"]) if False else cmp_[2], cmp_[3])
+    cid = max(c["id"] for c in native["checkpoints"] + [{"id": 0}]) + 1
+    gid_imported = x["ctx"][1]
+    groups = [g for g in native["groups"]]
+    holder = None
+    ctx = None
+    if groups and rng.random() < 0.7:
+        G = rng.choice(groups)
+        if G["id"] != gid_imported and not any(h["id"] == gid_imported for h in groups):
+            # give the native group the imported group's id, consistently
+            old = G["id"]
+
+            def walk(v):
+                if isinstance(v, (tuple, list)):
+                    if len(v) == 2 and v[0] == "group" and v[1] == old:
+                        return type(v)(("group", gid_imported))
+                    return type(v)(walk(y) for y in v)
+                if isinstance(v, dict):
+                    return {k: walk(w) for k, w in v.items()}
+                return v
+            for key in list(native):
+                native[key] = walk(native[key])
+            for g in native["groups"]:
+                if g["id"] == old:
+                    g["id"] = gid_imported
+                if g["src"][0] == "V" and g["src"][1] == old:
+                    g["src"] = ("V", gid_imported, g["src"][2])
+            for c in native["checkpoints"]:
+                c["deps"] = [tuple(("var", gid_imported, o[2]) if (isinstance(o, (tuple, list)) and len(o) == 3 and o[0] == "var" and o[1] == old) else o for o in d) if d[0] == "cmp" else d
+                             for d in c["deps"]]
+            G = next(g for g in native["groups"] if g["id"] == gid_imported)
+        ctx = ("group", G["id"])
+        holders = [a for a in native["actions"] if a["ctx"] == ctx and a["dep"] is None and not a["op"]["edges"] and a["op"]["appends"] is None]
+        holder = rng.choice(holders) if holders else None
+        if holder is None:
+            ctx = None
+    if holder is None:
+        holders = [a for a in native["actions"] if a["ctx"] is None and a["dep"] is None and a["op"]["appends"] is None and not a["op"]["edges"]]
+        if not holders:
+            return None
+        holder = rng.choice(holders)
+    native["checkpoints"].append({"id": cid, "alias": 500 + cid, "gate": None, "deps": [cmp_], "ctx": ctx})
+    holder["dep"] = ("checkpoint", cid)
+    return "native checkpoint (%s) compares an action threaded inside an imported schema" % ("bound to a native thread group with the imported group's id" if ctx else "unbound")
+
+
+@imut
 def scope_violation_through_connection(rng, case):
     """the added dependency is a checkpoint bound to a native thread group: the imported target is outside it"""
     native = case["native"]
@@ -393,7 +467,7 @@ def _some_target(rng, imp):
 def _fresh_native_cp(rng, case):
     native, nb = case["native"], case["builder"]
     ptype = {p["id"]: p["type"][1] for p in native["promises"]}
-    plain = lambda x: ptype.get(x["promise"][1], 0) < OFF        # the native builder knows only native object types
+    plain = lambda x: ptype.get(x["promise"][1], OFF) < OFF        # the native builder knows only native object types
     a = rng.choice([x for x in native["actions"] if x["ctx"] is None and x["op"]["appends"] is None and plain(x)] or [x for x in native["actions"] if x["ctx"] is None and plain(x)])
     cid = max(c["id"] for c in native["checkpoints"] + [{"id": 0}]) + 1
     native["checkpoints"].append({"id": cid, "alias": 500 + cid, "gate": None, "deps": [nb.make_cmp(a["id"])[0]], "ctx": None})
@@ -405,7 +479,7 @@ def mutate_i(rng, only=None):
     for _ in range(30):
         name = rng.choice(names)
         for _ in range(30):
-            case = gen_valid_i(rng, threads=(name == "scope_violation_through_connection" or rng.random() < 0.3))
+            case = gen_valid_i(rng, threads=(name in ("scope_violation_through_connection", "native_checkpoint_compares_imported_threaded_action") or rng.random() < 0.3))
             desc = IMUT[name](rng, case)
             if desc:
                 return case, name, desc
